@@ -106,8 +106,8 @@ def generate(rng: random.Random, tier: str, allow_starve: bool = True) -> dict:
         ov = {}
         if gi > 0:
             other = gen.gen_config(rng, simple_solver=True)
-            for key in rng.sample(["lr", "betas", "momentum", "weight_decay", "precondition_frequency"], 2):
-                ov[key] = other[key]
+            for key in rng.sample(["lr", "betas", "momentum", "weight_decay", "precondition_frequency", "use_merge_dims", "use_merge_dims"], 2):
+                ov[key] = (not config["use_merge_dims"]) if key == "use_merge_dims" else other[key]
         eff = spec.effective_group_config(config, ov)
         mine: list[int] = []
         for _ in range(40):
@@ -149,6 +149,11 @@ def generate(rng: random.Random, tier: str, allow_starve: bool = True) -> dict:
     prev = None
     prev_g = [None] * len(params)
     for s in range(n_events):
+        if events and rng.random() < 0.08:
+            # a scheduler write between two steps (every rank applies it at the same point of its own history)
+            key = rng.choice(["lr", "weight_decay"])
+            val = gen.f32r(rng, 1e-3, 0.5) if key == "lr" else rng.choice([0.0, 1e-2, 0.1])
+            events.append({"op": "set_hparam", "group": rng.randrange(len(groups)), "key": key, "value": val})
         mask = gen.gen_mask(rng, style, len(params), s, prev)
         if hybrid and gsize > 1 and not starving_run:
             # a group that is present or absent as a whole never starves an owner (finding F3 lives in the shared step())
@@ -315,6 +320,7 @@ def execute(trace: dict) -> Outcome:
         faults=Counter(
             {
                 "absent_grad_steps": sum(1 for e in trace["events"] if e["op"] == "step" and any(g is None for g in e["g"])),
+                "hparam_write": sum(1 for e in trace["events"] if e["op"] == "set_hparam"),
                 "empty_shard": probes.get("empty_shard", 0),
                 "rank_starved": probes.get("starved_history", 0),
                 "rank_skew_run": 1 if (w.get("stickiness", 0) > 0 or min(w.get("weights") or [1.0]) < 1.0) else 0,
